@@ -503,6 +503,15 @@ func (fc *followerController) applyAllCommittedEntries() {
 func (fc *followerController) processCommitRequest(entry *proto.LogEntry, logEntryValue *proto.LogEntryValue) error {
 	for _, br := range logEntryValue.GetRequests().Writes {
 		_, err := fc.db.ProcessWrite(br, entry.Offset, entry.Timestamp, WrapperUpdateOperationCallback)
+		if kv.IsInvalidRequestError(err) {
+			// The leader has refused this request in the same way: it has no effect
+			fc.log.Warn(
+				"Skipping invalid request found in the log",
+				slog.Int64("offset", entry.Offset),
+				slog.Any("error", err),
+			)
+			continue
+		}
 		if err != nil {
 			fc.log.Error(
 				"Error applying committed entry",
